@@ -23,11 +23,20 @@ def steppable : St → Bool
   | St.resumable _ _ | St.wantAwait _ _ => true
   | _ => false
 
+/-- re-tabulate the two finite maps (pure representation change: same function values on every index) so that
+look-ups do not walk an ever growing chain of `upd` closures -/
+def compact (ids : List Nat) (s : State) : State :=
+  let m := ids.foldl max 0 + 1
+  let ca := (Array.range m).map s.co
+  let fa := (Array.range s.nextFut).map s.fut
+  { s with co := fun c => match ca[c]? with | some x => x | none => s.co c,
+           fut := fun f => match fa[f]? with | some x => x | none => s.fut f }
+
 /-- step every coroutine that can move until nothing moves -/
 def quiesce (ids : List Nat) (s : State) : Nat → State
   | 0 => s
   | n + 1 =>
-      let s' := ids.foldl (fun s c => if steppable (s.co c).st then (step s (Op.step c)).1 else s) s
+      let s' := compact ids (ids.foldl (fun s c => if steppable (s.co c).st then (step s (Op.step c)).1 else s) s)
       if ids.any (fun c => steppable (s'.co c).st) then quiesce ids s' n else s'
 
 def parseAct (w : String) : Option Act :=
@@ -56,29 +65,38 @@ def actIds : Act → List Nat
 def addIds (d : DState) (l : List Nat) : DState :=
   { d with ids := d.ids ++ (l.filter (fun i => !d.ids.contains i)).eraseDups }
 
+/-- who is behind future `f`: external future `x<k>` or the child coroutine bound to it -/
+def srcStr (d : DState) (f : Nat) : String :=
+  if f < d.s.nExt then s!"x{f}"
+  else match d.ids.find? (fun j => (d.s.co j).bound == some f) with
+    | some j => s!"c{j}"
+    | none => "?"
+
 /-- events produced between two model states -/
 def events (d0 : DState) (d1 : DState) : List ((Nat × Nat) × String) :=
-  let perCo := d1.ids.flatMap fun c =>
+  d1.ids.flatMap fun c =>
     let a := d0.s.co c
     let b := d1.s.co c
     let rep (k : Nat) (n : Nat) (t : String) := List.replicate n ((k, c), t)
     let sawNew := (List.range (b.saw.length - a.saw.length)).map fun i =>
       let n := a.saw.length + i
-      ((2, c * 1000 + n), s!"s{c}.{n}=" ++ outStr d1.isVoid ((b.saw.reverse[n]?).map (·.2)))
-    rep 0 (b.allocs - a.allocs) s!"+f{c}" ++ rep 1 (b.bodyStarts - a.bodyStarts) s!"b{c}" ++ sawNew
-      ++ rep 3 (b.localDtors - a.localDtors) s!"~l{c}" ++ rep 4 (b.argDtors - a.argDtors) s!"~a{c}"
-      ++ rep 5 (b.frameFrees - a.frameFrees) s!"-f{c}"
-  perCo
+      match b.saw.reverse[n]? with
+      | some (f, o) => ((2, c * 1000 + n), s!"s{c}.{n}:{srcStr d1 f}=" ++ outStr d1.isVoid (some o))
+      | none => ((2, c * 1000 + n), "?")
+    let res := if a.outcome.isNone && b.outcome.isSome then [((3, c), s!"r{c}=" ++ outStr d1.isVoid b.outcome)] else []
+    rep 0 (b.allocs - a.allocs) s!"+f{c}" ++ rep 1 (b.bodyStarts - a.bodyStarts) s!"b{c}" ++ sawNew ++ res
+      ++ rep 4 (b.localDtors - a.localDtors) s!"~l{c}" ++ rep 5 (b.argDtors - a.argDtors) s!"~a{c}"
+      ++ rep 6 (b.frameFrees - a.frameFrees) s!"-f{c}"
 
 def report (d : DState) : DState × List ((Nat × Nat) × String) :=
   let idx := List.range d.slots.length
   let slotEv := idx.filterMap fun i =>
     match d.slots[i]? with
-    | some (f, false) => if (d.s.fut f).ready then some ((6, i), s!"F{i}=" ++ outStr d.isVoid (d.s.fut f).out) else none
+    | some (f, false) => if (d.s.fut f).ready then some ((7, i), s!"F{i}=" ++ outStr d.isVoid (d.s.fut f).out) else none
     | _ => none
   let slots' := d.slots.map fun (f, r) => (f, r || (d.s.fut f).ready)
   let extEv := (List.range d.s.nExt).filterMap fun k =>
-    if (d.s.fut k).ready && !d.extRep.contains k then some ((7, k), s!"X{k}=" ++ outStr d.isVoid (d.s.fut k).out) else none
+    if (d.s.fut k).ready && !d.extRep.contains k then some ((8, k), s!"X{k}=" ++ outStr d.isVoid (d.s.fut k).out) else none
   let extRep' := d.extRep ++ (List.range d.s.nExt).filter fun k => (d.s.fut k).ready && !d.extRep.contains k
   ({ d with slots := slots', extRep := extRep' }, slotEv ++ extEv)
 
@@ -162,7 +180,7 @@ def doEnd (d : DState) : String :=
   let s3 := d.ids.foldl (fun s c => (step s (Op.dropU c)).1) s2
   let hang := (List.range d.slots.length).filterMap fun i =>
     match d.slots[i]? with
-    | some (f, _) => if (s3.fut f).ready then none else some ((8, i), s!"hang:F{i}")
+    | some (f, _) => if (s3.fut f).ready then none else some ((9, i), s!"hang:F{i}")
     | none => none
   (finishLine d { d with s := s3 } "end" hang).2
 
